@@ -36,6 +36,10 @@ func main() {
 			fmt.Sscanf(os.Getenv("SYMGO_PREEMPT"), "%d", &j.Preempt)
 			j.CanonicalBlock = os.Getenv("SYMGO_CANON") != ""
 			j.PreemptAt = os.Getenv("SYMGO_PREEMPTAT")
+			fmt.Sscanf(os.Getenv("SYMGO_TIMERS"), "%d", &j.TimerBudget)
+			if os.Getenv("SYMGO_STUBREADPOOL") != "" {
+				j.Stubs = map[string]interceptFn{repoModule + "/internal/transfer.readAtWithPool": stubReadAtDirect}
+			}
 			if e := os.Getenv("SYMGO_EAGER"); e != "" {
 				j.EagerCalls = strings.Split(e, ",")
 			}
